@@ -206,6 +206,80 @@ Definition init (progs : list (list act)) : cfg :=
   {| lk := fun _ => {| wl := false; rc := 0 |};
      ts := map (fun p => {| th := []; code := p |}) progs |}.
 
+(* ---- executable stepper (for concrete schedules: examples, refutation witnesses) ---------- *)
+(* one unrolling of a path: for every loop, the list of alternatives taken, in order *)
+Fixpoint expand_with (p : path) (ch : list (list nat)) : list act :=
+  match p with
+  | [] => []
+  | Straight l :: p' => l ++ expand_with p' ch
+  | Iter alts :: p' =>
+      match ch with
+      | [] => expand_with p' []
+      | c :: ch' =>
+          flat_map (fun i => match nth_error alts i with Some b => b | None => [] end) c
+          ++ expand_with p' ch'
+      end
+  end.
+
+(* thread i performs its next action (ch: the unrolling chosen for a goroutine it starts) *)
+Definition fstep (c : cfg) (i : nat) (ch : list (list nat)) : option cfg :=
+  match nth_error (ts c) i with
+  | None => None
+  | Some t =>
+      let l := firstn i (ts c) in
+      let r := skipn (S i) (ts c) in
+      let h := th t in
+      match code t with
+      | [] => None
+      | Acq m MW :: k =>
+          if negb (wl (lk c m)) && Nat.eqb (rc (lk c m)) 0
+          then Some {| lk := upd (lk c) m {| wl := true; rc := 0 |};
+                       ts := l ++ {| th := (m, MW) :: h; code := k |} :: r |}
+          else None
+      | Acq m MR :: k =>
+          if negb (wl (lk c m))
+          then Some {| lk := upd (lk c) m {| wl := false; rc := S (rc (lk c m)) |};
+                       ts := l ++ {| th := (m, MR) :: h; code := k |} :: r |}
+          else None
+      | Rel m MW :: k =>
+          Some {| lk := upd (lk c) m {| wl := false; rc := rc (lk c m) |};
+                  ts := l ++ {| th := hdel h m; code := k |} :: r |}
+      | Rel m MR :: k =>
+          Some {| lk := upd (lk c) m {| wl := wl (lk c m); rc := pred (rc (lk c m)) |};
+                  ts := l ++ {| th := hdel h m; code := k |} :: r |}
+      | Rd _ :: k | Wr _ :: k | Blk _ :: k =>
+          Some {| lk := lk c; ts := l ++ {| th := h; code := k |} :: r |}
+      | Spawn b :: k =>
+          Some {| lk := lk c;
+                  ts := l ++ {| th := h; code := k |} :: r
+                        ++ [{| th := []; code := expand_with (snd (entry b)) ch |}] |}
+      | Handoff b :: k =>
+          Some {| lk := lk c;
+                  ts := l ++ {| th := []; code := k |} :: r
+                        ++ [{| th := h; code := expand_with (snd (entry b)) ch |}] |}
+      end
+  end.
+
+Fixpoint frun (c : cfg) (sched : list (nat * list (list nat))) : option cfg :=
+  match sched with
+  | [] => Some c
+  | (i, ch) :: s => match fstep c i ch with Some c' => frun c' s | None => None end
+  end.
+
+Definition head_access (t : thread) : option (nat * bool) :=
+  match code t with Rd f :: _ => Some (f, false) | Wr f :: _ => Some (f, true) | _ => None end.
+Definition conflict (a b : option (nat * bool)) : bool :=
+  match a, b with
+  | Some (f, w), Some (g, v) => Nat.eqb f g && (w || v)
+  | _, _ => false
+  end.
+Fixpoint raceb_list (l : list thread) : bool :=
+  match l with
+  | [] => false
+  | t :: r => existsb (fun u => conflict (head_access t) (head_access u)) r || raceb_list r
+  end.
+Definition raceb (c : cfg) : bool := raceb_list (ts c).
+
 (* ---- what must not happen ---------------------------------------------------------- *)
 (* thread t is about to access field f; w: the access is a write *)
 Definition accesses (t : thread) (f : nat) (w : bool) : Prop :=
